@@ -212,3 +212,27 @@ MUTANTS["C03"] = [
     M("twin-in-form", DRS, "            if name not in named_commands:\n                break\n\n            next_command = named_commands.get(name)\n",
       "            if name in named_commands:\n                next_command = named_commands.get(name)\n            else:\n                break\n", twin=True),
 ]
+
+DCF = "src/clikit/config/default_application_config.py"
+
+MUTANTS["C09"] = [
+    M("has-token-quiet", DCF, 'args.has_option_token("--quiet") or args.has_option_token("-q")', 'args.has_token("--quiet") or args.has_option_token("-q")', expect="C09-R1"),
+    M("n-spelling-dropped", DCF, 'args.has_option_token("--no-interaction") or args.has_option_token("-n")', 'args.has_option_token("--no-interaction")', expect="C09-R2"),
+    M("levels-permuted", DCF, '        elif args.has_option_token("-vv"):\n            io.set_verbosity(VERY_VERBOSE)\n        elif args.has_option_token("-v"):\n            io.set_verbosity(VERBOSE)',
+      '        elif args.has_option_token("-vv"):\n            io.set_verbosity(VERBOSE)\n        elif args.has_option_token("-v"):\n            io.set_verbosity(VERY_VERBOSE)', expect="C09-R3"),
+    M("handled-not-set", DCF, "            event.handled(True)\n", "", expect="C09-R5"),
+    M("stop-propagation-removed", DCF, "            event.stop_propagation()\n", "", expect="C09-R4"),
+    M("resolved-command-not-set", DCF, "            event.set_resolved_command(ResolvedCommand(command, parsed_args))\n", "", expect="C09-R4"),
+    M("help-only-long", DCF, 'if args.has_option_token("-h") or args.has_option_token("--help"):', 'if args.has_option_token("--help"):', expect="C09-R"),
+    M("quiet-one-output", IOF, "        self._output.set_quiet(quiet)\n        self._error_output.set_quiet(quiet)\n", "        self._output.set_quiet(quiet)\n", expect="C09-R6"),
+    M("no-ansi-only-stdout", DCF, "            output_formatter = error_formatter = PlainFormatter(style_set)\n        elif",
+      "            output_formatter = PlainFormatter(style_set)\n            error_formatter = AnsiFormatter(style_set)\n        elif", expect="C09-R3"),
+    M("ansi-not-forced", DCF, "output_formatter = error_formatter = AnsiFormatter(style_set, True)", "output_formatter = error_formatter = AnsiFormatter(style_set)", expect="C09-R3"),
+    M("resolver-runs-anyway", CAP, "            if resolved_command:\n                return resolved_command\n", "", expect="C09-R4"),
+    M("version-as-pre-resolve", DCF, "self.add_event_listener(PRE_HANDLE, self.print_version)", "self.add_event_listener(PRE_RESOLVE, self.print_version)", expect="C09-R5"),
+    M("interactive-flag-ignored", "src/clikit/api/io/input.py", "        if not self._interactive:\n            return default\n\n        return self._stream.read_line(length=length)",
+      "        return self._stream.read_line(length=length)", expect="C09-R6"),
+    M("twin-quiet-order", DCF, 'args.has_option_token("--quiet") or args.has_option_token("-q")', 'args.has_option_token("-q") or args.has_option_token("--quiet")', twin=True),
+    M("twin-verbosity-if-chain", DCF, '        elif args.has_option_token("-vv"):\n            io.set_verbosity(VERY_VERBOSE)\n        elif args.has_option_token("-v"):\n            io.set_verbosity(VERBOSE)',
+      '        elif args.has_option_token("-v"):\n            io.set_verbosity(VERBOSE)\n        elif args.has_option_token("-vv"):\n            io.set_verbosity(VERY_VERBOSE)', twin=True),
+]
